@@ -432,7 +432,15 @@ def run_impl(case):
                 _, _, lab = pngref.read(fh.read())
         obs['label'] = rows_hex(lab)
         try:
-            gfile.to_file(g, fn)
+            # the three ways a caller can leave the label to the destination: argument omitted, passed as None, or
+            # (when the destination exists) named explicitly - all must use the existing destination's picture
+            how = case['seed'] % 3
+            if how == 1:
+                gfile.to_file(g, fn, label_fname=None)
+            elif how == 2 and case['dest'] != 'none':
+                gfile.to_file(g, fn, label_fname=fn)
+            else:
+                gfile.to_file(g, fn)
             obs['raised'] = None
         except Exception as e:  # noqa
             obs['raised'] = lib.exc_name(e)
